@@ -370,6 +370,7 @@ def proofs(run, src):
             dis.append("compute_path(%r): model %s, real returned %d states" % (c["counts"], m, len(r["path"])))
             continue
         mlen, valid, sa, sb, maxnew = int(f[1]), f[3] == "1", int(f[5]), int(f[7]), int(f[9])
+        mwork = [int(x) for x in f[11].split(",")] if len(f) > 11 and f[11] else []
         path = r["path"]
         score = (path[-1][0] + path[-1][1] + path[-1][2]) if path else 0
         if len(path) != mlen or len(path) != len(c["counts"]):
@@ -378,9 +379,13 @@ def proofs(run, src):
             dis.append("compute_path(%r): real path %r is not a chain of get_next successors of the model" % (c["counts"], path))
         elif maxnew <= 32 and not (score == sa == sb):
             dis.append("compute_path(%r): no pruning possible, final scores real %d model %d/%d" % (c["counts"], score, sa, sb))
+        elif maxnew <= 32 and w != mwork:
+            # without a cut the set of kept keys does not depend on the tie-breaking order: the work per step is determined
+            dis.append("compute_path(%r): no pruning possible, states per step real %r model %r (de-duplication differs)" % (c["counts"], w, mwork))
         if maxnew > 32:
             pruned += 1
-    run.tie("compute_path: real path is a get_next chain of the model, same length; same final score when no pruning can occur",
+    run.tie("compute_path: real path is a get_next chain of the model, same length; <= 192 states per step; same final score and same "
+            "number of states per step when no pruning can occur",
             len(cases), dis)
     run.coverage["compute_path_cases_with_pruning"] = pruned
     run.coverage["compute_path_max_states_per_step_real"] = maxwork
